@@ -131,7 +131,10 @@ def corpus(r, maxlen=6000):
 
 FS_OPEN = ['f"', "f'", 'F"""', "f\'\'\'", 'rf"', "Rf'", 'fr"""']
 FS_BITS = ['{a', '{a!r', '{a:', '{a:{w', '{a:>{w}', '}', '}}', '{{', 'text', ' ', '\t', '\x0c', '\x0b', '\n', '\r\n', '\\\n', '\\N{DASH}', '#c', ':=', '=',
-           '"', "'", '"""', "\'\'\'", '{f"', "{f'{b", '[0]', '(', ')', '\x1c', '\xa0', 'lambda', 'x', '1']
+           '"', "'", '"""', "\'\'\'", '{f"', "{f'{b", '[0]', '(', ')', '\x1c', '\xa0', 'lambda', 'x', '1',
+           # character names: closed, unclosed, long (a regex with nested quantifiers needs exponential time on the long unclosed ones), with spaces and hyphens
+           '\\N{LATINSMALLLETTERAWITHGRAVEANDMACRONANDTILDE', '\\N{LATIN SMALL LETTER A WITH GRAVE', '\\N{' + 'A' * 60, '\\N{DASH', '\\N{EM DASH}', '\\N{HYPHEN-MINUS}',
+           '\\N{' + 'AB-' * 20 + ' ', '\\N', '\\N{}', '\\N{ }']
 
 
 def fstrings(r):
